@@ -45,6 +45,8 @@ def cases(ctx):
         rng = ctx.rng('slice')
         for _ in range(8):
             yield 'toks', {'len': 4, 'start': rng.randrange(22 ** 4 - 2000), 'count': 2000}
+    # the nesting depth the project pins as supported (200), in the shapes that cost most stack
+    yield 'deep200', {'i': ctx.shard}
     n = 400 if q else 12000
     ctx.new_phase()
     for i in range(n):
@@ -204,6 +206,24 @@ def oracle(ctx, kind, p):
                 ctx.count('missing_target')
             if t.metadata:
                 ctx.count('with_metadata')
+    elif kind == 'deep200':
+        rng = ctx.rng('deep200', p['i'])
+        node = ('v200', [('/', 'leaf'), (':k', '"s"')])
+        for d in range(199, 0, -1):
+            br = [('/', rng.choice(T.CONCEPTS))]
+            extra = rng.choice([[], [(':polarity', '-')], [(':op1', '"x y"'), (':mod', 'v%d' % rng.randrange(d, 201))]])
+            branch = (rng.choice([':ARG0', ':ARG1-of', ':op1~e.3', ':']), node)
+            br += (extra + [branch]) if p['i'] % 2 else ([branch] + extra)
+            node = ('v%d' % d, br)
+        import sys as _sys
+        lim = _sys.getrecursionlimit()
+        _sys.setrecursionlimit(lim + 2500)     # head-room for the probes' own (recursive) snapshots, not for the library
+        try:
+            check_tree(ctx, node, {'id': 'deep'}, det={'depth': 200})
+        finally:
+            _sys.setrecursionlimit(lim)
+        ctx.case(('deep200', p['i']), True)
+        ctx.count('depth_200_trees')
     elif kind == 'meta':
         # accepted *input texts* with multi-key metadata lines and irregular spacing
         rng = ctx.rng('meta', p['i'])
